@@ -148,6 +148,50 @@ def run_scenario(sc, lines, impl):
     return None
 
 
+def reuse_scenario(sc):
+    """two outputs of ONE caller-owned list object to different receiver sets, the list being overwritten in between (before
+    the event loop runs): the first receivers must obtain the first value and must not learn the second one"""
+    m, t, R0, R1 = sc['m'], sc['t'], sc['R0'], sc['R1']
+    net = SimNet(m, t, no_prss=sc['no_prss'], seed=sc['seed'], sched=Scheduler(sc['seed'], sc['mode']), max_steps=600000)
+
+    async def prog(mpc):
+        S = mpc.SecInt(16)
+        a, b = mpc.input([S(1111), S(2222)], senders=m - 1)
+        await mpc.gather(a, b)
+        buf = [a]
+        f0 = mpc.output(buf, receivers=R0)
+        buf[0] = b
+        f1 = mpc.output(buf, receivers=R1)
+        return await f0, await f1
+    try:
+        res = net.run(prog)
+    except (Deadlock, PartyError) as exc:
+        return f'{type(exc).__name__}: {str(exc)[:300]}'
+    for p in range(m):
+        o0, o1 = res[p]
+        exp0 = [1111] if p in R0 else [None]
+        exp1 = [2222] if p in R1 else [None]
+        if list(o0) != exp0:
+            extra = ' (the value of the SECOND output, of which it is not a receiver)' if list(o0) == [2222] and p not in R1 else ''
+            return f'reused list: party {p} obtained {list(o0)} from output(buf, receivers={R0}), expected {exp0}{extra}'
+        if list(o1) != exp1:
+            return f'reused list: party {p} obtained {list(o1)} from output(buf, receivers={R1}), expected {exp1}'
+    return None
+
+
+def reuse_cases(ctx, rng):
+    out = []
+    for m, t in ((2, 0), (3, 1), (4, 1), (5, 2)):
+        for _ in range(ctx.scale(2, 10)):
+            R0 = sorted(rng.sample(range(m), rng.randrange(1, m)))
+            R1 = sorted(rng.sample(range(m), rng.randrange(1, m)))
+            if R0 == R1:
+                R1 = [(R0[0] + 1) % m]
+            out.append({'m': m, 't': t, 'no_prss': rng.random() < 0.3, 'seed': rng.randrange(10**6), 'type': 'reuse',
+                        'mode': rng.choice(['random', 'starve', 'lazynet', 'eagernet']), 'R0': R0, 'R1': R1})
+    return out
+
+
 def gen(ctx, rng, k):
     ms = [2, 3, 4, 5] if not ctx.thorough else [2, 3, 4, 5, 6, 7]
     m = rng.choice(ms)
@@ -192,6 +236,13 @@ def run(ctx):
             break
         if k < 3:
             ctx.sample(key)
+    for sc in reuse_cases(ctx, rng):
+        msg = reuse_scenario(sc)
+        ctx.case(repr(sorted(sc.items(), key=str)), nontrivial=True)
+        ctx.count('type:reuse')
+        if msg:
+            ctx.violation('C19: ' + msg, {'kind': 'scenario', 'scenario': sc})
+            break
     model = common.LeanDriver('Comm').run(lines)
     ctx.compare('output/transfer traffic (runtime vs MpycV.Comm)', impl, model, lines)
 
@@ -207,5 +258,8 @@ def search(ctx):
 
 
 def replay(ctx, data):
+    if data['scenario'].get('type') == 'reuse':
+        msg = reuse_scenario(dict(data['scenario']))
+        return msg is None, msg or 'ok'
     msg = run_scenario(dict(data['scenario']), [], [])
     return msg is None, msg or 'ok'
